@@ -182,7 +182,7 @@ theorem other_verbs_preserve_login (cfg : Cfg) (w : World) (s : SState) (v : Ver
     (arg : PPath) (p : Bytes) (hv : v ≠ .user) (hp : v ≠ .pass) :
     let r := body cfg w s v rest arg p
     r.2.1.user = s.user ∧ r.2.1.logged = s.logged := by
-  cases v <;> simp [body, worker] at hv hp ⊢ <;> (repeat' split) <;> simp_all
+  cases v <;> simp [body, worker, workerK] at hv hp ⊢ <;> (repeat' split) <;> simp_all
 
 /-! ### non-vacuity -/
 
